@@ -331,6 +331,65 @@ def run_cp2k(c, work):
     return fails
 
 
+LMP_NAMES = {1: "infretis_name", 2: "infretis_nsteps", 3: "infretis_temperature"}
+LMP_VALUES = {1: "traj007", 2: 1200, 3: 300.5}
+
+
+def run_lammps(c, work):
+    """write_for_run on a template built from the case; the expected file is computed word by word."""
+    from infretis.classes.engines.lammps import write_for_run
+    lines = ["# variables to be replaced by infretis", "units real"]
+    for v in sorted(c["defined"]):
+        tok = LMP_NAMES[v]
+        lines.append(f"variable\t{tok[9:]} index {tok}" + (f" {tok}_long" if c["lookalike"] and v == min(c["defined"]) else ""))
+    for v in sorted(c["again"]):
+        tok = LMP_NAMES[v]
+        lines.append(f"# {tok} is set by infretis" if c["again_in_comment"] else f"variable\tcopy{v} index {tok}")
+    lines += ["timestep 1.0", "run ${nsteps}"]
+    src, out1, out2 = (os.path.join(work, x) for x in ("lmp.in", "lmp1.in", "lmp2.in"))
+    with open(src, "w") as fh:
+        fh.write("\n".join(lines) + "\n")
+    settings = {LMP_NAMES[v]: LMP_VALUES[v] for v in sorted(c["requested"])}
+    must_fail = not set(c["requested"]) <= set(c["defined"])
+    fails = []
+    try:
+        write_for_run(src, out1, settings)
+        raised = None
+    except ValueError as exc:
+        raised = exc
+    if must_fail:
+        if raised is None:
+            fails.append(("lammps:missing-not-reported", f"settings {sorted(settings)} name a variable the template does not declare; no error was raised"))
+        return fails
+    if raised is not None:
+        fails.append(("lammps:raise:ValueError", f"a template that declares every requested variable was refused: {raised}"))
+        return fails
+    expected = []
+    for ln in lines:
+        words = ln.split(" ")
+        expected.append(" ".join("\t".join(str(settings[t]) if t in settings else t for t in w.split("\t")) for w in words))
+    got = open(out1).read().split("\n")
+    if got[-1] == "":
+        got = got[:-1]
+    if got != expected:
+        bad = next(((g, e) for g, e in zip(got, expected) if g != e), (None, None))
+        fails.append(("lammps:edit", f"the edited template differs from the word-wise substitution: got {bad[0]!r}, expected {bad[1]!r}"))
+    write_for_run(src, out2, settings)
+    if open(out2).read() != open(out1).read():
+        fails.append(("lammps:repeatable", "writing the same settings again gives a different file"))
+    return fails
+
+
+def run_case(c, work):
+    if c["kind"] == "traj":
+        return run_traj(c, work)
+    if c["kind"] == "cp2k":
+        return run_cp2k(c, work)
+    if c["kind"] == "lammps":
+        return run_lammps(c, work)
+    return run_template(c, work)
+
+
 def _job(chunk):
     work = common.tmpdir("c19x-")
     out, n, sample = [], 0, None
@@ -342,7 +401,7 @@ def _job(chunk):
             c = {k: (sorted(v) if isinstance(v, (set, frozenset)) else v) for k, v in st["c"].items()}
             n += 1
             try:
-                fails = run_traj(c, work) if c["kind"] == "traj" else (run_cp2k(c, work) if c["kind"] == "cp2k" else run_template(c, work))
+                fails = run_case(c, work)
             except Exception as exc:  # noqa: BLE001
                 import traceback
                 tb = traceback.extract_tb(exc.__traceback__)
@@ -368,7 +427,7 @@ def main(tier, replay=None):
         work = common.tmpdir("c19r-")
         try:
             c = rp["case"]["case"]
-            fails = run_traj(c, work) if c["kind"] == "traj" else (run_cp2k(c, work) if c["kind"] == "cp2k" else run_template(c, work))
+            fails = run_case(c, work)
         finally:
             shutil.rmtree(work, ignore_errors=True)
         if fails:
@@ -412,6 +471,7 @@ def main(tier, replay=None):
     finally:
         common.rmtree(work)
     chk.assumptions += ["values live on the decimal grid of each format (k * 10^-p realised as the double nearest to the decimal string); "
-                        "the xyz header carries the box with four decimals", "LAMMPS variable substitution (write_for_run) is not covered"]
+                        "the xyz header carries the box with four decimals", "for LAMMPS templates 'idempotent' is read as: writing the same settings from the same template again gives the same file "
+                        "(the written file no longer contains the tokens, so it is not itself a template)"]
     return chk.finish("every well-formed case of Codec.tla (format x atoms x frames x frame index x value class x id order x box shape x operation; "
-                      "template shapes x edits); all distinct")
+                      "mdp template shapes x edits; CP2K trees x edits; LAMMPS templates x requested variables); all distinct")
